@@ -36,7 +36,7 @@ RULE = (
     "per run one format (E 2..7, M 0..10, srbits default or 1..12) and 1-4 seeded input batches from classes "
     "{representable, midpoint, near(+-1..4 ulp), random_mantissa per exponent, subnormal range, top binade, beyond max, "
     "zero, half-way-of-draw-grid}; every input is evaluated under ALL draws of the requested range (chunked); a keyed per-element draw "
-    "then checks independence over layouts (contiguous, transposed, rank 3, expanded, requires_grad) and quantise_fwd / quantise_bwd against quantise; "
+    "then checks independence over layouts (contiguous, transposed, rank 3, expanded, requires_grad) and quantise_fwd / quantise_bwd against quantise, and re-quantises an overwritten quantise() output; "
     "non-trivial = run with >= 1 non-representable input; distinct = (E, M, srbits, input classes)"
 )
 
